@@ -218,6 +218,86 @@ theorem at_most_once (cfg : Cfg) (ops : List Op) (hnd : (delivered ops).Nodup) :
 
 example : (confIds (run exCfg {} [.batch [⟨exEv, exMsg⟩], .height exOracle 101 3280000, .height exOracle 102 3280001]).2) = [0] := by decide
 
+/-! ### at most once, across restarts of `Run` on the same `Watcher` value
+
+The supervisor starts `Run` again after every error that reaches `errC` (and whenever it restarts a healthy group).  The loops
+of the new incarnation share the `Watcher` value with the old one; `restartW` says what they inherit: nothing but the poller
+flag.  The history of a watcher is then a sequence of batches, height ticks and restarts. -/
+
+inductive LifeOp where
+  | op (o : Op)
+  | restart (count0 : Option Int)
+
+def stepLife (cfg : Cfg) (s : WState) : LifeOp → WState × List (Unconf × Header)
+  | .op o => stepOp cfg s o
+  | .restart count0 => (restartW s count0, [])
+
+/-- run a history with restarts, collecting everything handed to the signer by all incarnations -/
+def runLife (cfg : Cfg) : WState → List LifeOp → WState × List (Unconf × Header)
+  | s, [] => (s, [])
+  | s, op :: rest =>
+    let r := stepLife cfg s op
+    let r' := runLife cfg r.1 rest
+    (r'.1, r.2 ++ r'.2)
+
+/-- ids of the events fetched and delivered to the event loop, over all incarnations -/
+def deliveredLife : List LifeOp → List Nat
+  | [] => []
+  | .op o :: rest => delivered [o] ++ deliveredLife rest
+  | .restart _ :: rest => deliveredLife rest
+
+private theorem restartW_pending (s : WState) (c : Option Int) : (restartW s c).pending = [] := by
+  cases c <;> rfl
+
+private theorem stepLife_count (cfg : Cfg) (s : WState) (op : LifeOp) (x : Nat) :
+    (pendIds (stepLife cfg s op).1.pending).count x + (confIds (stepLife cfg s op).2).count x
+      ≤ (pendIds s.pending).count x + (deliveredLife [op]).count x := by
+  cases op with
+  | op o =>
+    have := stepOp_count cfg s o x
+    simpa [stepLife, deliveredLife, delivered_cons, delivered] using this
+  | restart c => simp [stepLife, restartW_pending, confIds, deliveredLife]
+
+private theorem deliveredLife_cons (op : LifeOp) (rest : List LifeOp) :
+    deliveredLife (op :: rest) = deliveredLife [op] ++ deliveredLife rest := by
+  cases op <;> simp [deliveredLife]
+
+private theorem runLife_count (cfg : Cfg) (ops : List LifeOp) (s : WState) (x : Nat) :
+    (pendIds (runLife cfg s ops).1.pending).count x + (confIds (runLife cfg s ops).2).count x
+      ≤ (pendIds s.pending).count x + (deliveredLife ops).count x := by
+  induction ops generalizing s with
+  | nil => simp [runLife, deliveredLife, confIds]
+  | cons op rest ih =>
+    have ihr := ih (stepLife cfg s op).1
+    have hs := stepLife_count cfg s op x
+    rw [deliveredLife_cons]
+    simp only [runLife, confIds_append, List.count_append]
+    omega
+
+/-- **At most once, restarts included.** Over any history of batches, height ticks and restarts of `Run` on the same
+`Watcher` value (after an API error at any call, or a cancellation), no fetched event is handed to the signer twice — by the
+same incarnation or by two different ones — provided no event is *fetched* twice (`restart_fetches_fresh` in C09: a new
+incarnation starts at the count it polls, above everything its predecessors fetched). -/
+theorem at_most_once_restarts (cfg : Cfg) (ops : List LifeOp) (hnd : (deliveredLife ops).Nodup) :
+    (confIds (runLife cfg {} ops).2).Nodup := by
+  apply List.nodup_iff_count.2
+  intro x
+  have h := runLife_count cfg ops {} x
+  have hd : (deliveredLife ops).count x ≤ 1 := List.nodup_iff_count.1 hnd x
+  simp only [pendIds_nil, List.count_nil] at h
+  omega
+
+/-- A restart forgets the pending events and every fetch index: the new incarnation starts at the polled count. -/
+theorem restart_state (s : WState) (c : Int) :
+    (restartW s (some c)).pending = [] ∧ (restartW s (some c)).fromIndex = c ∧ (restartW s (some c)).alive = true ∧
+      (restartW s (some c)).enabled = s.enabled := ⟨rfl, rfl, rfl, rfl⟩
+
+example : (confIds (runLife exCfg {} [.op (.batch [⟨exEv, exMsg⟩]), .op (.height exOracle 101 3280000), .restart (some 1),
+    .op (.height exOracle 102 3280001)]).2) = [0] := by decide
+-- the hypothesis is needed: an incarnation that fetched the same log position again would forward it again
+example : (confIds (runLife exCfg {} [.op (.batch [⟨exEv, exMsg⟩]), .op (.height exOracle 101 3280000), .restart (some 1),
+    .op (.batch [⟨exEv, exMsg⟩]), .op (.height exOracle 102 3280001)]).2) = [0, 0] := by decide
+
 /-! ## the re-observation path -/
 
 private theorem govEvents_mem {cfg : Cfg} {node : ReobsNode} {bh : Hash} {evs : List Event}
